@@ -407,10 +407,10 @@ class TimeRecurrence:
                       "end_point": self._second_point + other}
         elif self._format_number == 3:
             kwargs = {"start_point": self._start_point + other,
-                      "duration": self._duration}
+                      "duration": self._duration or Duration(years=0)}
         elif self._format_number == 4:
             kwargs = {"end_point": self._end_point + other,
-                      "duration": self._duration}
+                      "duration": self._duration or Duration(years=0)}
         return self.__class__(
             repetitions=self._repetitions, **kwargs,
             min_point=self._min_point, max_point=self._max_point)
